@@ -63,17 +63,6 @@ theorem pickSlotsI_index_error (subs xs : List Slot) (lm : List Int)
           rw [ih xs hlen ⟨e', hps⟩]
           rfl
 
-/-- padded length of a `label_maps` entry's reaction (0 when the entry is rejected before the map is
-    read) -/
-def padLen (isos : List (Name × List Slot)) (baseRxns : List (Name × List (Name × Int)))
-    (rxn : Name) : Nat :=
-  match baseRxns.lookup rxn with
-  | none => 0
-  | some st =>
-    match slotsOf isos (dupList (unpackLin st).1), slotsOf isos (dupList (unpackLin st).2) with
-    | .ok s, .ok p => max s.length p.length
-    | _, _ => 0
-
 theorem linRxnsOfI_eq (isos : List (Name × List Slot)) (baseRxns : List (Name × List (Name × Int)))
     (rxn : Name) (lm : List Int) (lm' : List Nat)
     (h : normMap (padLen isos baseRxns rxn) lm = .ok lm') :
